@@ -239,6 +239,10 @@ pub struct ProgStats {
     pub dist_eq_avail: u32,
     /// bit mask of (state_before) seen
     pub states: u32,
+    /// LZMA2: `avail` at the start of the chunk being generated
+    pub chunk_start_avail: u64,
+    /// copies whose source starts before the current chunk
+    pub cross_chunk_copies: u32,
 }
 
 impl ProgStats {
@@ -271,6 +275,9 @@ impl ProgStats {
             self.len_273 += 1;
         }
         let avail = m.avail() as u64;
+        if dist > avail.saturating_sub(self.chunk_start_avail) && self.chunk_start_avail > 0 {
+            self.cross_chunk_copies += 1;
+        }
         if dist == avail {
             self.dist_eq_avail += 1;
         }
